@@ -392,26 +392,31 @@ def overlapping_resources_case(pr):
 
 
 def concurrent_saves_case(pr):
-    """ten independent targets finish at the same moment: each record is its own"""
+    """ten independent targets with large records finish at the same moment (their scripts do nothing): each record is
+    its own"""
     ts = {}
     for i in range(10):
-        pr.write("in%d/x.txt" % i, "v%d" % i)
-        ts["t%d" % i] = _t([{"paths": ["in%d" % i]}], [{"paths": ["out%d.txt" % i]}], name="t%d" % i, body="cat in%d/x.txt > out%d.txt" % (i, i), sleep=0.3)
+        os.makedirs(pr.path("in%d" % i))
+        for j in range(700):
+            with open(pr.path("in%d/file_%04d.txt" % (i, j)), "w") as f:
+                f.write("%d %d" % (i, j))
+        ts["t%d" % i] = _t([{"paths": ["in%d" % i]}], None, name="t%d" % i)
+    pr.files["in<i>/file_<j>.txt"] = "<10 directories of 700 small files>"
     pr.write("zinoma.yml", yml(ts))
     names = sorted(ts)
-    for rep in range(3):
+    for rep in range(4):
         if not _run_ok(pr, *names):
             return None
         pr.clear_log()
         r = pr.run(*names)
         if pr.log():
-            return {"property": ["C18", "C03"], "expected": "ten independent targets built concurrently: each has its own record, an untouched tree runs nothing (round %d)" % rep, "observed": "log %s" % pr.log(), "zinoma": r.brief()}
-        pr.edit("in3/x.txt", "changed-%d" % rep)
+            return {"property": ["C18", "C03"], "expected": "ten independent targets built in one invocation: each has its own record, an untouched tree runs nothing (round %d)" % rep, "observed": "log %s" % pr.log(), "zinoma": r.brief()}
+        pr.edit("in3/file_0005.txt", "changed-%d" % rep)
         pr.clear_log()
         r = pr.run(*names)
         started = sorted(l for l in pr.log() if l.startswith("s "))
         if started != ["s t3"]:
-            return {"property": ["C18", "C02"], "expected": "after editing in3/x.txt exactly t3 runs", "observed": "started %s" % started, "zinoma": r.brief()}
+            return {"property": ["C18", "C02"], "expected": "after editing in3/file_0005.txt exactly t3 runs", "observed": "started %s" % started, "zinoma": r.brief()}
         pr.remove(".zinoma")
     return None
 
@@ -420,14 +425,15 @@ def dep_and_output_case(pr):
     """the consumer lists the producer both under dependencies and as X.output"""
     pr.write("psrc/p.txt", "p1")
     prod = _t([{"paths": ["psrc"]}], [{"paths": ["gen.txt"]}], name="prod", body="cat psrc/p.txt > gen.txt")
-    cons = _t(["prod.output"], [{"paths": ["final.txt"]}], name="cons", body="cat gen.txt > final.txt", deps=["prod"])
+    pr.write("csrc/c.txt", "c1")
+    cons = _t([{"paths": ["csrc"]}, "prod.output"], [{"paths": ["final.txt"]}], name="cons", body="cat gen.txt > final.txt", deps=["prod"])
     pr.write("zinoma.yml", yml({"prod": prod, "cons": cons}))
     if not _run_ok(pr, "cons"):
         return None
     pr.clear_log()
     pr.run("cons")
     if pr.log():
-        return None
+        return {"property": "C03", "expected": "untouched tree: prod and cons skipped", "observed": "log %s" % pr.log()}
     pr.edit("psrc/p.txt", "p2-longer")
     pr.clear_log()
     r = pr.run("cons")
